@@ -30,6 +30,10 @@ NO_RAISE_METHODS = {
 }
 
 
+PURE_FUNCS = {"len", "isinstance", "str", "bool", "int", "float", "sorted", "min", "max", "abs", "repr", "type", "tuple", "frozenset",
+              "hasattr", "callable", "issubclass", "any", "all", "sum"}
+
+
 class FlowPolicy(Policy):
     inline_depth = 0
     loop_unroll = 2
@@ -49,6 +53,10 @@ class FlowPolicy(Policy):
         self.track_calls = track_calls
         self.locals_ = set(locals_) if locals_ is not None else None
         self.record_atoms = record_atoms
+        self.atom_attrs = set()
+        self.acquire_labels = set()
+        self._pending_acquire = {}
+        self.widen_locals = False
         if inline:
             self.inline_depth = 3
 
@@ -97,6 +105,15 @@ class FlowPolicy(Policy):
         if label in self.summaries:
             return self.summaries[label](interp, node, args, kwargs, cfg, out)
         ev = self.event_for(label) if label else None
+        if ev and ev in self.acquire_labels:
+            # an acquisition counts only if the call returns (and, when awaited, the await completes)
+            if not self.is_no_raise(label) and self.may_raise_all:
+                out.add("raise", cfg.set("$exc", ExcV("Exception", f"call {label} L{getattr(node, 'lineno', 0)}")))
+            if isinstance(getattr(node, "_parent", None), ast.Await):
+                self._pending_acquire[id(node)] = ("call", ev, tuple(args), tuple(kwargs.items()), getattr(node, "lineno", 0))
+            else:
+                cfg = cfg.emit(("call", ev, tuple(args), tuple(kwargs.items()), getattr(node, "lineno", 0)))
+            return [(cfg, App("res", (Const(label), Const(getattr(node, "lineno", 0)), *args)))]
         if ev:
             cfg = cfg.emit(("call", ev, tuple(args), tuple(kwargs.items()), getattr(node, "lineno", 0)))
         elif self.track_calls and label:
@@ -110,10 +127,32 @@ class FlowPolicy(Policy):
             out.add("raise", cfg.set("$exc", ExcV("Exception", f"call {label or '?'} L{getattr(node, 'lineno', 0)}")))
         if isinstance(fval, ClassV):
             return [(cfg, App("new", (fval, *args)))]
+        if label in PURE_FUNCS:
+            return [(cfg, App(label, tuple(args)))]
         return [(cfg, App("res", (Const(label or "?"), Const(getattr(node, "lineno", 0)), *args)))]
 
     def keep_local(self, name):
         return self.locals_ is None or name in self.locals_ or name.startswith("$")
+
+    def abstract_local(self, name, val, node):
+        if not self.widen_locals or name in ("self", "cls"):
+            return val
+        if isinstance(val, (Const, ObjV, ClassV, FuncV)):
+            return val
+        if isinstance(val, Sym) and val.tag and val.tag[0] in ("param", "ver"):
+            return val
+        notnone = isinstance(val, (ListV, DictV)) or (isinstance(val, App) and val.op == "new")
+        return Sym(("ver", name, getattr(node, "lineno", 0), notnone))
+
+    def atom_relevant(self, interp, node, val, cfg):
+        if self.locals_ is None:
+            return True
+        for n in ast.walk(node):
+            if isinstance(n, ast.Name) and n.id in self.locals_ and n.id not in ("self", "cls"):
+                return True
+            if isinstance(n, ast.Attribute) and n.attr in self.atom_attrs:
+                return True
+        return False
 
     def inline_nested(self, fval):
         return False
@@ -123,6 +162,12 @@ class FlowPolicy(Policy):
 
     def await_raises(self, interp, node, cfg):
         return ("CancelledError",) if self.cancel else ()
+
+    def on_await(self, interp, node, cfg):
+        ev = self._pending_acquire.pop(id(node.value), None)
+        if ev is not None:
+            return cfg.emit(ev)
+        return cfg
 
     def resolve(self, interp, fname, fval, cfg):
         return None
@@ -219,3 +264,25 @@ def relevant_locals(fn, obj_names, attrs):
                         tracked |= vn
                         changed = True
     return tracked | set(obj_names)
+
+
+def pairing(out: Out, pairs):
+    """For every exit: acquisitions (by kind) not followed by their release.  pairs: {acquire_label: (kind, release_labels)}."""
+    leaks = []
+    n = 0
+    for kind, c, desc in exits(out):
+        n += 1
+        held = {}
+        for e in c.trace:
+            if e[0] != "call":
+                continue
+            lab = e[1]
+            if lab in pairs:
+                held[pairs[lab][0]] = e[4]
+            else:
+                for acq, (k, rels) in pairs.items():
+                    if lab in rels:
+                        held.pop(k, None)
+        for k, line in held.items():
+            leaks.append((k, line, kind, desc))
+    return n, leaks
